@@ -13,7 +13,7 @@ PROPS['C12'] = dict(
     level_text='Every solver class (SymEigs, HermEigs, SymEigsShift, GenEigs, GenEigsRealShift, GenEigsComplexShift, SymGEigs Cholesky/RegularInverse, '
                'SymGEigsShift ShiftInvert/Buckling/Cayley, Davidson, PartialSVD square/tall/wide; plus sparse-wrapper and user-functor operators) is constructed for every '
                'n in 1..12 and every (nev, ncv) in [-2, n+3]^2 (Buckling/Cayley/ShiftInvert additionally with sigma in {-0.5, +0, -0, 1e-300}); compute() is called with all 9 x 9 '
-               '(selection, sorting) SortRule pairs on valid solvers of size 7, 10 and 12; init() is given three kinds of zero vector and three kinds of nonzero vector for every n up to 12; the '
+               '(selection, sorting) SortRule pairs on valid solvers of size 7, 10 and 12 (Davidson also through compute_with_guess() with unit-vector and exact-eigenvector guesses of nev and nev+1 columns, nev = 1, 2: every selection rule must be accepted or rejected there exactly as by compute()); init() is given three kinds of zero vector and three kinds of nonzero vector for every n up to 12; the '
                'ten wrapper constructors whose contract is a square matrix get every shape in [0,4]^2 (SymShiftInvert every (A,B) shape pair in [1,4]^4). The verdict of each call is '
                'compared with a predicate written from the documentation: reject => exactly std::invalid_argument (any other exception type or an Eigen assertion is a violation), '
                'accept => no exception (and the default init() is accepted). After a rejected call the number of live heap blocks must be back to its value before the operators were '
